@@ -409,3 +409,133 @@ Print Assumptions c05_exposed_wirelength_never_increases_static.
 Print Assumptions c05_no_polarity_no_restriction.
 Print Assumptions c05_exposed_frozen_offsets_refuted.
 
+
+(* ======================================================================================== *)
+(* C05, the CLOSED reordering pass -- RowReordering with its enumeration (coq/Reorder.v): the regions of the window
+   (addCells / addRow: one per maximal run of window cells of a row, bounds = the span the run occupies, the row's end
+   when the run touches it), runRegionChoice (every cell to every region, width test, polarity test of cffa2e7),
+   runOrdering (`while (std::next_permutation(...))`: every arrangement of each region EXCEPT the sorted one the loop
+   starts from; a region with fewer than two cells has none, and such an assignment evaluates nothing), packing from
+   minPos, strict-improvement test, writeback().  The search threads the two net models through single updateCellPos
+   calls as the C++ does.  No oracle: `PReorder cs leaves` of the theorems above is instantiated with
+   cs = cells_ and leaves = Reorder.leaves_of.  Tie: ./check C05 (checks/c05_reorder.py: Reorder.run against
+   DetailedPlacer::runReorderingOnCells, placement and values exact). *)
+Require Import CV.Reorder CV.ReorderGeomProofs CV.ReorderEnumProofs CV.ReorderSearchProofs CV.ReorderProofs CV.ReorderCountProofs.
+From Coq Require Import Permutation Factorial.
+
+(* [F] every leaf the enumeration evaluates is  leaf_of (chosen_of widths gps)  for a list gps = (region, arrangement)
+   over ALL regions in their order: the arrangements are together a permutation of the registered cells (each cell
+   exactly once), each non-empty arrangement fits the width of its region, every cell is on a row its polarity allows;
+   positions are packed from the region's minPos, the predecessor chain starts at the region's cellPred *)
+Theorem c05_reordering_leaf_shape : forall d rgs leaf, In leaf (leaves_of d rgs) ->
+  exists gps, leaf = leaf_of (chosen_of (width_of d) gps) /\ map fst gps = map fst rgs /\
+    Permutation (concat (map snd gps)) (map p_id (registered rgs)) /\ Forall (Wok' d) gps.
+Proof. exact leaves_shape. Qed.
+
+(* [F] (c) + (a): for every state satisfying the coupling invariant and every window of distinct cells of the rows, the
+   closed pass IS the paired step PReorder on (cells_, leaves_of), that step satisfies pstep_ok -- in particular the
+   write-back of the retained leaf is accepted by the row structure (DetailedPlacement::place does not throw) and
+   leaves no cell unplaced: hypothesis 4 of design/C05_compose.md is discharged --, and the number of leaves evaluated
+   is length leaves_of *)
+Theorem c05_closed_reordering_is_paired_step : forall c rh nets s cs,
+  PInv c rh nets s -> NoDup cs -> (forall x, In x cs -> held (ps_d s) x = true) ->
+  exists rgs, regions_of (ps_d s) cs cs = Some rgs /\
+    let cells := rev (sort_asc (map p_id (registered rgs))) in
+    let leaves := leaves_of (ps_d s) rgs in
+    pstep_ok s (PReorder cells leaves) /\
+    run s cs = Some (preorder s cells leaves, length leaves).
+Proof. exact run_is_preorder. Qed.
+
+(* [F] C05 for the closed pass: it returns (never throws), keeps the coupling invariant PInv and does not increase the
+   optimised value; with c05_exposed_hpwl_is_value: Circuit::hpwl of the exposed circuit does not increase (F8 scope) *)
+Theorem c05_closed_reordering_never_worsens : forall c rh nets s cs,
+  std_design c rh -> PInv c rh nets s -> NoDup cs -> (forall x, In x cs -> held (ps_d s) x = true) ->
+  exists s' n, run s cs = Some (s', n) /\ PInv c rh nets s' /\ ovalue (ps_o s') <= ovalue (ps_o s).
+Proof. exact run_keeps_invariant. Qed.
+
+(* [F] (b), what the pass returns: the minimum of the value at entry and of the values of ALL enumerated leaves (each
+   evaluated with every window cell at the leaf's position); the structure changes only for a STRICT improvement, and
+   then to the write-back of an enumerated leaf of that minimal value *)
+Theorem c05_closed_reordering_returns_minimum : forall c rh nets s cs,
+  PInv c rh nets s -> NoDup cs -> (forall x, In x cs -> held (ps_d s) x = true) ->
+  exists rgs s' n, regions_of (ps_d s) cs cs = Some rgs /\ run s cs = Some (s', n) /\
+    let d := ps_d s in let o := ps_o s in let leaves := leaves_of d rgs in
+    n = length leaves /\
+    ovalue (ps_o s') <= ovalue o /\
+    (forall leaf, In leaf leaves -> ovalue (ps_o s') <= leaf_value_of d o leaf) /\
+    ((ps_d s' = d /\ ovalue (ps_o s') = ovalue o) \/
+     (exists leaf, In leaf leaves /\ ovalue (ps_o s') = leaf_value_of d o leaf /\ ovalue (ps_o s') < ovalue o /\
+                   wb d (rev (sort_asc (map p_id (registered rgs)))) leaf = Some (ps_d s'))).
+Proof. exact run_returns_minimum. Qed.
+
+(* [F] (d) termination: the recursion is structural (no fuel); the number of leaves evaluated is at most
+   nbRegions ^ nbCells * nbCells! *)
+Theorem c05_reordering_leaves_bounded : forall d rgs,
+  (length (leaves_of d rgs) <= length rgs ^ length (registered rgs) * fact (length (registered rgs)))%nat.
+Proof. exact leaves_of_length. Qed.
+
+(* non-vacuity: one row [0,10]x[0,2]; movable 2x2 cells 0 at x = 6 and 1 at x = 0 (row order 1, 0); fixed pins 2 at (0,1) and 3 at
+   (9,1); net {cell 0, pin 2}.  The window {0, 1} is one region [0, 10] (the run touches both row ends); the enumeration
+   evaluates ONE leaf (the arrangement 1, 0 packed from 0: the sorted arrangement 0, 1 is the one next_permutation skips);
+   it is strictly better (7 -> 3) and is written back: cell 0 moves from 6 to 2 *)
+Definition exr : circuit :=
+  {| rows := [mkrow 0 10 0 2 oN];
+     cells := [mkcell 6 0 2 2 oN pANY false true; mkcell 0 0 2 2 oN pANY false true;
+               mkcell 0 1 0 0 oN pANY true false; mkcell 9 1 0 0 oN pANY true false] |}.
+Definition exr_nets : list (list hpin) := [[hp 0 0 0; hp 2 0 0]].
+
+Lemma exr_std : std_design exr 2.
+Proof.
+  split; [lia|]. split; [intros r [<-|[]]; reflexivity|].
+  split; [apply pairwise_disjointb_spec; vm_compute; reflexivity|].
+  split; [intros r [<-|[]]; reflexivity|].
+  intros k Hk. vm_compute in Hk.
+  repeat (destruct Hk as [<-|Hk];
+          [split; [vm_compute; reflexivity|]; split; [exists 1%nat; split; [lia|vm_compute; reflexivity]|left; reflexivity]|]).
+  destruct Hk.
+Qed.
+
+Example c05_closed_reordering_nonvacuous :
+  std_design exr 2 /\ legal exr /\
+  exists d0, from_circuit exr = DOk d0 /\
+    let s0 := {| ps_d := d0; ps_o := init_models exr exr_nets |} in
+    PInv exr 2 exr_nets s0 /\ NoDup [0%nat; 1%nat] /\ (forall x, In x [0%nat; 1%nat] -> held d0 x = true) /\
+    exists s', run s0 [0%nat; 1%nat] = Some (s', 1%nat) /\ ovalue (ps_o s0) = 7 /\ ovalue (ps_o s') = 3 /\
+      map (fun r => map (fun c => (p_id c, p_x c)) (dr_cells r)) (d_rows d0) = [[(1%nat, 0); (0%nat, 6)]] /\
+      map (fun r => map (fun c => (p_id c, p_x c)) (dr_cells r)) (d_rows (ps_d s')) = [[(1%nat, 0); (0%nat, 2)]].
+Proof.
+  split; [exact exr_std|]. assert (HL : legal exr) by (apply legalb_correct; vm_compute; reflexivity). split; [exact HL|].
+  eexists. split; [vm_compute; reflexivity|]. cbn zeta.
+  split; [apply init_PInv; [exact exr_std|exact HL|vm_compute; reflexivity]|].
+  split; [repeat constructor; cbn; intuition discriminate|].
+  split; [intros x [<-|[<-|[]]]; vm_compute; reflexivity|].
+  eexists. split; [vm_compute; reflexivity|]. vm_compute. repeat split; reflexivity.
+Qed.
+
+(* OBSERVATION (not a violation of C05, which only demands monotonicity): the arrangement in ascending cell index is never
+   evaluated.  Same circuit, nets pulling cell 0 to the left pin and cell 1 (twice) to the right pin: the enumeration
+   consists of the single leaf (1 at 0, 0 at 2), value 23 < 27, which is written back; the arrangement (0 at 0, 1 at 2) of the
+   same packing form is accepted by the row structure, has value 17, and is not enumerated *)
+Definition exr_nets2 : list (list hpin) := [[hp 0 0 0; hp 2 0 0]; [hp 1 0 0; hp 3 0 0]; [hp 1 0 0; hp 3 0 0]].
+Example c05_reordering_skips_sorted_arrangement :
+  exists d0 g run01, from_circuit exr = DOk d0 /\ regions_of d0 [0%nat; 1%nat] [0%nat; 1%nat] = Some [(g, run01)] /\
+    let o := init_models exr exr_nets2 in
+    let alt := leaf_of (chosen_of (width_of d0) [(g, [0%nat; 1%nat])]) in
+    leaves_of d0 [(g, run01)] = [[(1%nat, 0%nat, None, 0); (0%nat, 0%nat, Some 1%nat, 2)]] /\
+    alt = [(0%nat, 0%nat, None, 0); (1%nat, 0%nat, Some 0%nat, 2)] /\
+    (exists d', wb d0 [1%nat; 0%nat] alt = Some d' /\ d_loose d' = []) /\
+    ovalue o = 27 /\ leaf_value_of d0 o [(1%nat, 0%nat, None, 0); (0%nat, 0%nat, Some 1%nat, 2)] = 23 /\ leaf_value_of d0 o alt = 17 /\
+    exists s', run {| ps_d := d0; ps_o := o |} [0%nat; 1%nat] = Some (s', 1%nat) /\ ovalue (ps_o s') = 23.
+Proof.
+  eexists. eexists. eexists. split; [vm_compute; reflexivity|]. split; [vm_compute; reflexivity|]. cbn zeta.
+  split; [vm_compute; reflexivity|]. split; [vm_compute; reflexivity|].
+  split; [eexists; split; vm_compute; reflexivity|].
+  split; [vm_compute; reflexivity|]. split; [vm_compute; reflexivity|]. split; [vm_compute; reflexivity|].
+  eexists. split; vm_compute; reflexivity.
+Qed.
+
+Print Assumptions c05_reordering_leaf_shape.
+Print Assumptions c05_closed_reordering_is_paired_step.
+Print Assumptions c05_closed_reordering_never_worsens.
+Print Assumptions c05_closed_reordering_returns_minimum.
+Print Assumptions c05_reordering_leaves_bounded.
